@@ -238,7 +238,7 @@ func r43(c *fw.Ctx) {
 	}
 	info := p.TypesInfo
 	target := info.Defs[fd.Type.Params.List[1].Names[0]] // typ
-	n := 0
+	n, nCopy := 0, 0
 	inspectFunc(fd, func(m ast.Node) bool {
 		as, ok := m.(*ast.AssignStmt)
 		if !ok || len(as.Lhs) != 1 || len(as.Rhs) != 1 {
@@ -250,8 +250,13 @@ func r43(c *fw.Ctx) {
 		}
 		r, isCopy := isSelector(as.Rhs[0], "CVal")
 		n++
-		key := "matchTypeCast/" + exprString(as.Lhs[0]) + "=" + exprString(as.Rhs[0])
+		// keyed by role, not by the names of locals: result.CVal = operand.CVal
+		if isCopy {
+			nCopy++
+		}
+		key := sprintf("matchTypeCast/result.CVal=operand.CVal#%d", nCopy)
 		if !isCopy {
+			key = sprintf("matchTypeCast/result.CVal=computed#%d", n-nCopy)
 			c.OK(rule, key, as.Pos(), "computed value")
 			return true
 		}
